@@ -69,8 +69,7 @@ Proof.
   intros base p Hb Hp. unfold request_path. rewrite (sanitize_prefix_path base p Hb Hp). cbn [andb].
   destruct base as [|c b'] eqn:Eb.
   - cbn [nonempty app]. reflexivity.
-  - cbn [nonempty]. rewrite <- Eb in *. rewrite (under_prefix_app base p Hp), drop_prefix_app.
-    destruct (sane_path_starts p Hp) as (r & ->). reflexivity.
+  - cbn [nonempty]. rewrite <- Eb in *. rewrite (strip_prefix_app base p Hp). reflexivity.
 Qed.
 
 Lemma c18_request_line : forall base p h, sane_prefix base -> sane_path p -> UrlGen.make_href base p = Some h ->
@@ -94,7 +93,7 @@ Definition ambiguous (rp : bool) (base p : pystr) : bool := rp && nonempty base 
 Lemma c18_request_line_stripped : forall rp base p, sane_path p -> ambiguous rp base p = false ->
   request_path rp base p = p.
 Proof.
-  intros rp base p Hp Ha. unfold request_path, ambiguous in *. rewrite Hp.
+  intros rp base p Hp Ha. unfold request_path, ambiguous, strip_prefix in *. rewrite Hp.
   destruct (rp && nonempty base); [|reflexivity]. cbn [andb] in Ha. rewrite Ha. reflexivity.
 Qed.
 
@@ -162,13 +161,10 @@ Qed.
 
 Lemma c18_request_path_strip : forall base pathinfo, nonempty base = true ->
   request_path true base pathinfo =
-  match strip_base base (sanitize_path pathinfo) with
-  | DOk r => if nonempty r then r else [slash]
-  | _ => sanitize_path pathinfo
-  end.
+  match strip_base base (sanitize_path pathinfo) with DOk r => r | _ => sanitize_path pathinfo end.
 Proof.
   intros base pathinfo Hb. unfold request_path, strip_base. rewrite Hb. cbn [andb].
-  destruct (under_prefix base (sanitize_path pathinfo)); reflexivity.
+  destruct (strip_prefix base (sanitize_path pathinfo)); reflexivity.
 Qed.
 
 (* ---------------------------------------------------------------- regression witnesses of the repaired defects *)
@@ -191,7 +187,9 @@ Lemma c18_witness_prefix_boundary :
   request_path_legacy true (str "/radicale") (str "/radicale2/cal/") = str "2/cal/"
   /\ request_path true (str "/radicale") (str "/radicale2/cal/") = str "/radicale2/cal/"
   /\ request_path_legacy true (str "/radicale") (str "/radicale") = []
-  /\ request_path true (str "/radicale") (str "/radicale") = str "/".
+  /\ request_path true (str "/radicale") (str "/radicale") = str "/"
+  /\ decode_multiget_legacy (str "/radicale") (str "http://h/radicale") = DOk []
+  /\ decode_multiget (str "/radicale") (str "http://h/radicale") = DOk (str "/").
 Proof. repeat split; vm_compute; reflexivity. Qed.
 
 (* ---------------------------------------------------------------- the hypotheses are satisfiable *)
